@@ -261,6 +261,20 @@ def regex_asts(scns):
     return sorted({o[1:] for s in scns for o in s.objs if o[0] in 'Rr'})
 
 
+def raw_edge_blanks(h):
+    """the model prints a blank literal as \\x{20} / \\x{a} / \\x{9}; at the two EDGES of the pattern text the
+    harness is handed the raw character instead (same PCRE meaning: no extended mode is ever set), so that a
+    constructor that rewrites the pattern text (trimming, simplifying) decides with another expression"""
+    if not h or h.startswith(('!', 'E')):
+        return h
+    for esc, raw in (('5c787b32307d', '20'), ('5c787b617d', '0a'), ('5c787b397d', '09')):
+        if h.startswith(esc):
+            h = raw + h[len(esc):]
+        if h.endswith(esc) and len(h) > len(esc):
+            h = h[:-len(esc)] + raw
+    return h
+
+
 class Runner:
     def __init__(self, model, impl, env=None, pcre=None):
         self.model, self.impl, self.env = model, impl, env
@@ -271,7 +285,7 @@ class Runner:
         if new:
             _, out, _ = vlib.run_lines(self.model, new, ['pcre'])
             for a, h in zip(new, out):
-                self.pcre[a] = h
+                self.pcre[a] = raw_edge_blanks(h)
 
     def drop_unprintable(self, scns):
         """replace expressions outside the printable subset (e.g. an empty class) by 'e'"""
